@@ -22,6 +22,10 @@ class Module:
     def __init__(self, name, path, rel, src):
         self.name, self.path, self.rel, self.src = name, path, rel, src
         self.tree = ast.parse(src, filename=path)
+        from .desugar import desugar_function
+        for n in list(ast.walk(self.tree)):
+            if isinstance(n, ast.FunctionDef):
+                desugar_function(n)
         for n in ast.walk(self.tree):
             for c in ast.iter_child_nodes(n):
                 c._parent = n
